@@ -60,6 +60,20 @@ CONFIGS = {
         "string_ice": True,
         "explicit": True,
     },
+    # ortho/para/meta pseudo-elements next to the elements O and P: species names that differ
+    # only in letter case (pH2 / PH2, oH2 / OH2) are different species
+    "orthopara": {
+        "elements": ["e", "H", "He", "C", "N", "O", "P"],
+        "pseudo": ["CR", "CRP", "Photon", "PHOTON", "CRPHOT", "o", "p", "m"],
+        "kwargs": {},
+        "spell": dict({k: v for k, v in BASE_SPELL.items() if k in ("H", "H2", "C", "O", "CO", "E", "H+", "C+", "OH", "He", "He+")},
+                      **{"pH2": "pH2", "PH2": "PH2", "oH2": "oH2", "OH2": "OH2", "pH3+": "pH3+", "PH3+": "PH3+", "mH2": "mH2"}),
+        "alt": {"E": ["e"]},
+        "alphabet": ["H", "H2", "C", "O", "CO", "E", "H+", "C+", "OH", "He", "He+", "pH2", "PH2", "oH2", "OH2", "pH3+", "PH3+", "mH2"],
+        "pseudo_names": {"CR": "CR", "PH": "Photon", "umistCR": "CRP", "umistPH": "PHOTON"},
+        "string_ice": True,
+        "explicit": True,
+    },
     # relies on the ambient default lists: by design global, only ever run alone
     "ambient": {
         "elements": None,
